@@ -46,11 +46,15 @@ impl Sm2PublicKey {
         compressed: bool,
         model: Sm2Model,
     ) -> Sm2Result<Vec<u8>> {
-        let cipher = self.encrypt(msg, compressed, model).unwrap();
-        let x = BigUint::from_bytes_be(&cipher[0..32]);
-        let y = BigUint::from_bytes_be(&cipher[32..64]);
-        let sm3 = &cipher[64..96];
-        let secret = &cipher[96..];
+        // GM/T 0009: SEQUENCE { x INTEGER, y INTEGER, hash OCTET STRING, cipher OCTET STRING }.
+        // Both coordinates of C1 are needed and the field order is fixed, so the raw form is always
+        // produced as 04 || x || y || C3 || C2 here, whatever `compressed` and `model` say.
+        let _ = (compressed, model);
+        let cipher = self.encrypt(msg, false, Sm2Model::C1C3C2)?;
+        let x = BigUint::from_bytes_be(&cipher[1..33]);
+        let y = BigUint::from_bytes_be(&cipher[33..65]);
+        let sm3 = &cipher[65..97];
+        let secret = &cipher[97..];
         Ok(yasna::construct_der(|writer| {
             writer.write_sequence(|writer| {
                 writer.next().write_biguint(&x);
@@ -281,15 +285,22 @@ impl Sm2PrivateKey {
                 return Ok((x, y, sm3, secret));
             })
         })
-        .unwrap();
+        .map_err(|_| Sm2Error::InvalidDer)?;
+        let _ = (compressed, model);
         let x = BigUint::to_bytes_be(&x);
         let y = BigUint::to_bytes_be(&y);
-        let mut cipher: Vec<u8> = vec![];
+        if x.len() > 32 || y.len() > 32 || sm3.len() != 32 {
+            return Err(Sm2Error::InvalidDer);
+        }
+        // rebuild 04 || x || y || C3 || C2 with the coordinates left-padded to 32 bytes
+        let mut cipher: Vec<u8> = vec![0x04];
+        cipher.extend_from_slice(&vec![0u8; 32 - x.len()]);
         cipher.extend_from_slice(&x);
+        cipher.extend_from_slice(&vec![0u8; 32 - y.len()]);
         cipher.extend_from_slice(&y);
         cipher.extend_from_slice(&sm3);
         cipher.extend_from_slice(&secret);
-        self.decrypt(&cipher, compressed, model)
+        self.decrypt(&cipher, false, Sm2Model::C1C3C2)
     }
 
     /// Decrypt the given message.
